@@ -87,6 +87,31 @@ def pool_setup_steps(rng, ws, keys=None, history=True, variants=5):
     return steps
 
 
+def add_family(rng, quick, prefix="add", serve=False):
+    """A NEW server added as the last change, after 0..2n selections, to every small pool over weights {0,1,2(,3)} (zeros are
+    set by an update, as the API requires): the rotation must restart whatever position and weight level it had reached."""
+    import itertools
+    out = []
+    wset = (0, 1, 2) if quick else (0, 1, 2, 3)
+    j = 0
+    for n in ((2, 3) if quick else (2, 3, 4)):
+        for ws in itertools.product(wset, repeat=n):
+            if not any(ws):
+                continue
+            for k in range(0, 2 * n + 1):
+                nw = rng.choice([1, 2, 3])
+                keys = KEYS[:n + 1]
+                subject = rng.choice(["rr", "rb"]) if serve else "rr"
+                sel = {"op": "serve", "mut": "none"} if serve else {"op": "pick"}
+                steps = pool_setup_steps(rng, list(ws), keys=keys[:n], history=False, variants=1)
+                steps += [dict(sel) for _ in range(k)]
+                steps.append({"op": "upsert", "k": keys[n], "v": 0, "w": nw})
+                steps += [dict(sel) for _ in range(2 * W_of(list(ws) + [nw]) + 3)]
+                out.append({"id": "%s-%d" % (prefix, j), "cfg": {"subject": subject, "table": j}, "steps": steps})
+                j += 1
+    return out
+
+
 def classify(clause, sc, report, evs):
     """Signature of a contract report: clause + the abstract situation in which it happened."""
     subject = sc.get("cfg", {}).get("subject", "rr")
